@@ -67,6 +67,31 @@ def gen_cases(ctx, n):
     # (almost) uncorrelated parameters: small correlations are registered like any other
     for k in range(4):
         cases.append(G.gen_centred(ctx.rng, units=None if k < 2 else ext[k]))
+    # fits as in C06's newer classes: offset abscissae, closed-form fits called with parguess
+    from props import c06 as C6
+    for k, fam in enumerate(G.OFFSET_FAMILIES):
+        cases.append(C6.offset_case(ctx.rng, family=fam, want_range=False))
+    for k, (fam, d) in enumerate((("linear", None), ("quadratic", None), ("polynomial", 3),
+                                  ("polynomial", 5))):
+        cases.append(G.gen_case(ctx.rng, family=fam, degree=d, guess=True, want_range=False,
+                                sx=("none", "common")[k % 2]))
+    n0 = len(G.corpus(ID))
+    # HISTORIES between two rounds of evaluating fit_function (every model family and every form
+    # gets one with the result drawn on a plot; the others get one without a plot half of the time)
+    k = 0
+    for c in cases[n0:]:
+        if c.get("scale") and max(c["scale"]) / min(c["scale"]) > 1e12:
+            continue
+        c["hist"] = G.gen_hist(ctx.rng, plot=(k % 2 == 0))
+        c["hist_first"] = k % 3 == 0
+        k += 1
+    for form in ("plot.fit", "plot.fit", "plot.fit", "xyds", "lists", "marrays"):
+        for fam in ("linear", "gaussian", "custom:sine"):
+            c = G.gen_case(ctx.rng, family=fam, form=form, want_range=False, noise_free=False)
+            c["hist"] = G.gen_hist(ctx.rng, plot=True)
+            c["hist_first"] = ctx.rng.random() < 0.4
+            cases.append(c)
+    nforced = len(cases)
     while len(cases) < n:
         if ctx.rng.random() < 0.03:
             cases.append(G.gen_centred(ctx.rng))
@@ -80,11 +105,15 @@ def gen_cases(ctx, n):
             u = (ctx.rng.choice(G.SCALES), ctx.rng.choice(G.SCALES))
         cases.append(G.gen_case(ctx.rng, want_range=(ctx.rng.random() < 0.1), noise_free=False,
                                 units=u))
+    for c in cases[nforced:]:
+        if ctx.rng.random() < 0.5:
+            c["hist"] = G.gen_hist(ctx.rng, plot=(ctx.rng.random() < 0.15))
+            c["hist_first"] = ctx.rng.random() < 0.3
     return cases
 
 
 def correspond(ctx):
-    return X.run_c07(ctx, gen_cases(ctx, ctx.n(120, 20000)))
+    return X.run_c07(ctx, gen_cases(ctx, ctx.n(140, 20000)))
 
 
 def search(ctx, broken):
